@@ -11,6 +11,8 @@ package hpack
 // values from the RFC text).
 
 import (
+	"encoding/hex"
+	"encoding/json"
 	"fmt"
 	"strings"
 
@@ -28,6 +30,35 @@ func (f hf) String() string {
 		s = "!"
 	}
 	return fmt.Sprintf("%q=%q%s", f.Name, f.Value, s)
+}
+
+// JSON form keeps arbitrary octets intact (hex) and adds a readable rendering.
+type hfJSON struct {
+	NameHex  string `json:"name_hex"`
+	ValueHex string `json:"value_hex"`
+	Text     string `json:"text,omitempty"`
+	Never    bool   `json:"never_index,omitempty"`
+}
+
+func (f hf) MarshalJSON() ([]byte, error) {
+	return json.Marshal(hfJSON{hex.EncodeToString([]byte(f.Name)), hex.EncodeToString([]byte(f.Value)), fmt.Sprintf("%.40q=%.40q", f.Name, f.Value), f.Sensitive})
+}
+
+func (f *hf) UnmarshalJSON(b []byte) error {
+	var j hfJSON
+	if err := json.Unmarshal(b, &j); err != nil {
+		return err
+	}
+	n, err := hex.DecodeString(j.NameHex)
+	if err != nil {
+		return err
+	}
+	v, err := hex.DecodeString(j.ValueHex)
+	if err != nil {
+		return err
+	}
+	f.Name, f.Value, f.Sensitive = string(n), string(v), j.Never
+	return nil
 }
 
 func hfListEq(a, b []hf) bool {
